@@ -303,7 +303,9 @@ def invalid_cases():
     for v in ('M2', 1, 7):
         sym = {'content': enc_content('1'), 'kw': {'version': v, 'mask': 0}}
         for kw in ({'border': -1}, {'border': 1.5}, {'border': -2}, {'border': 0.5}, {'scale': 0}, {'scale': -1}, {'scale': -2},
-                   {'scale': 0, 'border': 0}, {'scale': 2, 'border': -1}, {'scale': -0.5}):
+                   {'scale': 0, 'border': 0}, {'scale': 2, 'border': -1}, {'scale': -0.5},
+                   # a scale below 1 is truncated to 0 modules per pixel: nothing sensible can be yielded
+                   {'scale': 0.5}, {'scale': 0.99}, {'scale': 0.1, 'border': 0}):
             cases.append({'what': 'invalid', 'sym': sym, 'kw': kw})
     return cases
 
